@@ -402,7 +402,7 @@ def execute(spec, w, ctx):
                 cap_b2["arg"] = res_b["arg"]
             if res_b.get("ret") is not None:
                 cap_b2["ret_obj"] = dec(res_b["ret"])
-            events.append([i_op, "cli_pair", rel_a, rel_b, out_a["status"], res_b["status"]])
+            events.append([i_op, "cli_pair", rel_a, rel_b, out_a["status"], res_b["status"], res_b.get("trace")])
             shapes.append("P")
             ta, tb = "outputs/%s.txt" % xa["stem"], "outputs/%s.txt" % xb["stem"]
             v = _judge(i_op, xa, out_a, cap_a, before, w, files[rel_a]["games"], True, set(files), also_ok={tb})
